@@ -113,5 +113,5 @@ def check(src, names, timeout=60, repo=None, extra_args=(), twins=True, workers=
 
 def counterexample_args(output):
   """parse 'false when calling f(a=1, b="x")' -> source text of the call arguments."""
-  m = re.search(r'when calling \w+\((.*)\)(?: \(which returns.*)?$', output, re.M)
+  m = re.search(r'when calling \w+\((.*?)\)(?: \(which returns .*\))?\s*$', output, re.M)
   return m.group(1) if m else None
